@@ -58,8 +58,32 @@ void h_wait(void)           { SF *p; sf_wait(p); SENT(1, "after wait"); }
 #ifdef CV_HAS_sf_co_await
 void h_co_await(void)       { COAW *r; SF *p; sf_co_await(r, p); SENT(1, "after operator co_await"); }
 #endif
-#ifdef CV_HAS_sf_shift
+#if defined(CV_HAS_sf_shift) && defined(SHIFT_ON_EMPTY)
+void h_shift_on_empty(void) { SF *p; FFN *fn; sf_shift(p, fn); SENT(1, "after operator<< on an empty handle"); }
+#endif
+#if defined(CV_HAS_sf_shift) && !defined(SHIFT_ON_EMPTY)
 void h_shift(void)          { SF *p; FFN *fn; sf_shift(p, fn);
                               SENT(gh_env_choice == 0, "operator<<, the new operation is pending"); SENT(gh_env_choice == 1, "operator<<, ready with value"); SENT(gh_env_choice == 2, "operator<<, ready without value");
                               SENT(gh_exc0, "operator<< replaces a stored exception"); SENT(!gh_exc0 && gh_c0 > 1, "operator<< on a state shared by several handles"); }
+#endif
+#ifdef CV_HAS_sf_force_wait
+void h_force_wait(void)     { SF *p; sf_force_wait(p); SENT(1, "after force_wait"); }
+#endif
+#ifdef CV_HAS_sf_join
+void h_join(void)           { SF *p; sf_join(p); SENT(1, "after join"); }
+#endif
+#ifdef CV_HAS_sf_sync
+void h_sync(void)           { SF *p; sf_sync(p); SENT(1, "after sync"); }
+#endif
+#ifdef CV_HAS_sf_force_sync
+void h_force_sync(void)     { SF *p; sf_force_sync(p); SENT(1, "after force_sync"); }
+#endif
+#ifdef CV_HAS_sf_as_future
+void h_as_future(void)      { SF *p; sf_as_future(p); SENT(1, "after operator future<int>&"); }
+#endif
+#ifdef CV_HAS_sf_set_exception
+void h_set_exception(void)  { SF *r; EXCPTR *e; sf_set_exception(r, e); SENT(1, "after set_exception"); }
+#endif
+#ifdef CV_HAS_sf_set_value
+void h_set_value(void)      { SF *r; cv_i32 *v; sf_set_value(r, v); SENT(1, "after set_value"); }
 #endif
